@@ -90,6 +90,12 @@ CHECKS.update({
    text="Transfer function with numerator/denominator orders 0..3 (4) over 4 (6) steps from zero state with symbolic coefficients and inputs: output = difference equation, delay-line contents, linearity (alpha*u + beta*w), time invariance, zero() = fresh instance; RC low-pass: convex combination, stays within the range of the inputs so far, distance to a constant input shrinks by (1-alpha); high-pass: output scales by alpha for constant input; generators strictly inside (0,1) and monotone for all positive reals.",
    note=E2NOTE + REALNOTE + " The IEEE clause (saturation only for extreme fc*ts) is outside."),
 })
+CHECKS.update({
+ "C12": dict(engine="cbmc+llsym", cat="model_checking", design="4/C12",
+   technique="CBMC bit-precise single step of src/pid.c / src/pid_neuro.c from an arbitrary state (IEEE double and float, one clause per harness) plus llsym symbolic execution with a_real as z3 Real for the difference equations, pos/inc coincidence, zeroing and the fuzzy-tuned controller",
+   text="E1: one step of run/pos/inc and of the single-neuron controller from an arbitrary finite state (|v| <= 1e30; float 1e9): output inside the limits (NaN maps to outmin), returned value = stored output, state finite, integrator never moves further beyond its clamp, gains/limits untouched, zero() clears the state - inductive, hence any history length. E2: K = 3 (4) steps with symbolic gains/limits/inputs: positional output = documented equation, incremental output coincides while no limit is active, saturated equations from an arbitrary real state, zeroing = fresh controller; fuzzy controller of order 2 (3) over triangular/trapezoid sets, all seven operators: output within limits, no division by a zero weight sum.",
+   note=E2NOTE + REALNOTE + " The equilibrium operator is used through its contract inside the controller (proved in C13)."),
+})
 NOT_YET = {}
 
 def main():
